@@ -137,8 +137,14 @@ def run(chk):
                 ks = [k for n_, kk in byname.items() if n_.endswith("::Assembler::" + c.split("::")[-1]) for k in kk]
                 if ks:
                     return ks
+        if c.startswith("asmjit::BaseEmitter::") and not owner:
+            # a virtual call on some emitter from a free helper: every override that is defined must report
+            meth = c.split("::")[-1]
+            ov_ = [k for n_, kk in byname.items() if n_.endswith("::" + meth) and n_ != c for k in kk]
+            if ov_:
+                return ov_
         return byname.get(c, [])
-    owner_of = {k: (k.split("/")[0].split("::")[1] if k.count("::") >= 2 else None) for k in cls}
+    owner_of = {k: (k.split("/")[0].split("::")[1] if k.split("/")[0].count("::") >= 2 else None) for k in cls}
     reporting = {k: True for k in cls}
 
     def fine(k, kind, c):
